@@ -163,7 +163,7 @@ func lemmaSum20(s string) {
 //@   requires upc != nil && upc.PacketConn != nil && len(b) <= 65507
 //@   requires upc.boundAddr == nil || (0 <= upc.boundAddr.Port && upc.boundAddr.Port <= 65535)
 //@   requires typeIs(addr, *net.UDPAddr) ==> addr.(*net.UDPAddr) != nil && 0 <= addr.(*net.UDPAddr).Port && addr.(*net.UDPAddr).Port <= 65535
-//@   after `pkt := udp4pkt(b, udpAddr, src)` claim[frame] len(pkt) == 28 + len(b) && string(pkt)[28:] == string(b) && ipHdrOK(string(pkt), len(b), string(src.IP), string(udpAddr.IP)) && udpHdrOK(string(pkt), len(b), src.Port, udpAddr.Port, specSum16(specAddr4(string(src.IP)), 0), specSum16(specAddr4(string(udpAddr.IP)), 0), specSum16(string(b), 0))
+//@   after `call:udp4pkt` claim[frame] len(callresult("udp4pkt", 0)) == 28 + len(b) && string(callresult("udp4pkt", 0))[28:] == string(b) && ipHdrOK(string(callresult("udp4pkt", 0)), len(b), string(src.IP), string(udpAddr.IP)) && udpHdrOK(string(callresult("udp4pkt", 0)), len(b), src.Port, udpAddr.Port, specSum16(specAddr4(string(src.IP)), 0), specSum16(specAddr4(string(udpAddr.IP)), 0), specSum16(string(b), 0))
 
 // ReadFrom: every read offers the underlying connection a buffer that holds the largest frame whose payload fits b;
 // a frame is delivered only if it is a well-formed IPv4/UDP datagram (version 4, header length >= 20 and <= total length
